@@ -149,7 +149,34 @@ func genFleetScript(g *Gen, n int, native bool, steps int, withFaults, withResta
 }
 
 // genLoopRestart: as genLoop, with crashes/restarts (LMDB kept or emptied) and failing stores.
+// genLoopForcedOwn: an instance restarts with an emptied LMDB while its own snapshot is in the
+// bucket and cannot be downloaded for a while; the application writes, and the forced periodic
+// snapshot becomes due: nothing may be uploaded before the own snapshot has been merged.
+func genLoopForcedOwn(g *Gen) {
+	for _, native := range []bool{true, false} {
+		f := &fleetGen{r: g.R, native: native, started: map[string]bool{}}
+		f.lines = append(f.lines, "fleet.reset", fmt.Sprintf("loop.new a %s 0 0 0 0 3", b2s(native)))
+		f.lines = append(f.lines, fmt.Sprintf("loop.app a %s", f.appOpsFor("a", true)))
+		step := func(k int) {
+			for j := 0; j < k; j++ {
+				f.lines = append(f.lines, fmt.Sprintf("loop.go a ? 0 %d", f.now()), "prop.loop.check a")
+			}
+		}
+		step(7)
+		f.lines = append(f.lines, "loop.restart a 1", "loop.loadfail a 1000000")
+		step(3)
+		f.lines = append(f.lines, fmt.Sprintf("loop.app a %s", f.appOpsFor("a", true)), "prop.loop.check a")
+		step(2)
+		f.lines = append(f.lines, "loop.overdue a")
+		step(7)
+		f.lines = append(f.lines, "loop.loadfail a 0")
+		step(10)
+		g.Emit("forced-own-guard/"+map[bool]string{true: "native", false: "shadow"}[native], f.lines...)
+	}
+}
+
 func genLoopRestart(g *Gen, n int) {
+	genLoopForcedOwn(g)
 	count := n / 20
 	if count < 10 {
 		count = 10
